@@ -420,7 +420,7 @@ func (x *Exec) static(st *State, fn *ssa.Function, c *ssa.CallCommon, args []SVa
 		ret(SVal{K: KU, T: q(x.D.constOf("ctx!"+name, "U")), GoT: fn.Signature.Results().At(0).Type(), Src: "context." + name})
 		return
 	case pkg == "context" && name == "WithValue":
-		t := x.D.app("ctx!WithValue", []string{x.termOf(st, args[0]), x.termOf(st, args[1]), x.termOf(st, args[2])}, []string{"U", "U", "U"}, "U")
+		t := x.D.app("ctx_WithValue", []string{x.termOf(st, args[0]), x.termOf(st, args[1]), x.termOf(st, args[2])}, []string{"U", "U", "U"}, "U")
 		ret(SVal{K: KU, T: t, GoT: fn.Signature.Results().At(0).Type()})
 		return
 	}
